@@ -68,13 +68,15 @@ func soaRR() []byte {
 func genValid(r *vkit.Run, i int, salt uint16) (in *input) {
 	rng := r.Rand("valid", i)
 
+	// The handler's reserved labels appear at fixed positions of the list so
+	// that their number does not depend on the seed.
 	reserved := ""
-	switch rng.IntN(40) {
-	case 0:
+	switch i % 40 {
+	case 7:
 		reserved = labelSilent
-	case 1:
+	case 17:
 		reserved = labelError
-	case 2:
+	case 27:
 		reserved = labelNetErr
 	}
 
@@ -180,10 +182,15 @@ func genValid(r *vkit.Run, i int, salt uint16) (in *input) {
 	return in
 }
 
+// probeIDBase is the first index of the ID space reserved for liveness
+// probes; the hostile list must stay below it so that no two inputs sent from
+// one socket share an ID.
+const probeIDBase = 20000
+
 // genProbe generates liveness probe k: a plain, valid query.
 func genProbe(k int, salt uint16) (in *input) {
 	q := &tbench.QuerySpec{
-		ID:     permID(60000+k, salt),
+		ID:     permID(probeIDBase+k%(65536-probeIDBase), salt),
 		Flags:  tbench.FlagRD,
 		Name:   tbench.WireName(token("probe", k), []byte("Live"), []byte("test")),
 		QType:  dns.TypeA,
